@@ -18,6 +18,7 @@ def run(rep):
     t4(rep, w)
     t5(rep, w)
     t6(rep, w)
+    t7(rep, w)
 
 
 def t1(rep, w):
@@ -383,3 +384,81 @@ def t6(rep, w):
                             'boundary by construction (%s)' % why, f.loc(s.get('sp')))
     if n < 6:
         raise Broken('C03', 'floor', 'T6: only %d slice endpoints / cursor writes found in the scanner' % n)
+
+
+def t7(rep, w):
+    """attribute arguments: the compiler indexes `attr.arguments[k]` with a constant; that is panic-free only because take_attribute
+    hands an attribute out solely when it has exactly the requested number of arguments (and reports an error otherwise)"""
+    r = rep.rule('T7', 'take_attribute returns Some only for an attribute with exactly num_args arguments; every constant index into attr.arguments '
+                 'is below the count requested from take_attribute', floor=4)
+    f = w.require_fn(P + 'take_attribute', 'C03')
+    org = origins(f)
+    dom = f.dominators()
+    equal_targets = []
+    for bi in f.normal_blocks():
+        b = f.blocks[bi]
+        t = b['t']
+        if t['t'] != 'switch':
+            continue
+        pl = op_place(t['d'])
+        for s in b['s']:
+            rr = s.get('r', {})
+            if pl and s.get('d', {}).get('l') == pl['l'] and rr.get('rv') == 'bin' and rr['op'] in ('Ne', 'Eq'):
+                sides = [operand_fields(f, org, rr['a']), operand_fields(f, org, rr['b'])]
+                for o in (rr['a'], rr['b']):
+                    for q in org.get((op_place(o) or {}).get('l'), ()):
+                        if q[0][0] == 'call' and strip_generics(q[0][2]) == 'std::vec::Vec::len':
+                            sides.append(operand_fields(f, org, f.blocks[q[0][1]]['t']['args'][0]))
+                roots = [{q[0] for q in org.get((op_place(o) or {}).get('l'), ())} for o in (rr['a'], rr['b'])]
+                has_len = any('arguments' in x for x in sides)
+                has_param = any(('arg', 3) in x for x in roots)
+                if has_len and has_param:
+                    zero = [x for v, x in t['cases'] if v == 0]
+                    equal_targets.append(zero[0] if rr['op'] == 'Ne' else t['else'])
+    somes = [bi for bi in f.normal_blocks() for s in f.blocks[bi]['s'] if s.get('d', {}).get('l') == 0 and not s['d'].get('p') and
+             s.get('r', {}).get('rv') == 'agg' and s['r'].get('adt') == 'std::option::Option' and s['r'].get('v') == 'Some']
+    # a `?`-style early return forwards None only; any other write of the result (a move of another Option) is treated as opaque
+    opaque = [bi for bi in f.normal_blocks() for s in f.blocks[bi]['s'] if s.get('d', {}).get('l') == 0 and not s['d'].get('p') and s.get('r', {}).get('rv') == 'use'
+              and op_const(s['r']['o']) is None]
+    ok = len(equal_targets) == 1 and bool(somes) and not opaque and all(equal_targets[0] in dom.get(b, ()) for b in somes)
+    r.check(ok, 'take_attribute: Some(attr) only under arguments.len() == num_args', 'take_attribute can return Some(attr) on a path where the argument count was not found '
+            'equal to num_args: callers index attr.arguments[..] without checking and panic (compile() must return an error instead)', f.loc())
+    errs = emit.error_blocks(f)
+    r.check(bool(errs) and not any(b in f.reachable_blocks(e) for e in errs for b in somes), 'take_attribute: the error path returns None',
+            'after reporting the arity error take_attribute still hands the attribute out', f.loc())
+    # constant indexes into .arguments anywhere in the compiler
+    n = 0
+    for g in sorted(w.yarel.fns.values(), key=lambda x: x.path):
+        if not g.file.endswith('compiler.rs'):
+            continue
+        gorg = None
+        for bi, t in g.calls():
+            if not (callee_name(t) or '').endswith('::index') or len(t['args']) < 2:
+                continue
+            if gorg is None:
+                gorg = origins(g)
+            if 'arguments' not in operand_fields(g, gorg, t['args'][0]):
+                continue
+            n += 1
+            k = op_const(t['args'][1])
+            bound = None
+            if g.kind == 'Closure':
+                par = w.fns.get(g.parent)
+                porg = origins(par)
+                for pb, pt in par.calls():
+                    if strip_generics(callee_name(pt) or '') == 'std::option::Option::map' and len(pt['args']) == 2:
+                        cl = op_place(pt['args'][1])
+                        is_this = cl is not None and par.crate.tstr(par.local_ty(cl['l'])).startswith('{closure@') and any(
+                            s.get('d', {}).get('l') == cl['l'] and s.get('r', {}).get('closure') == g.path for b2 in par.blocks for s in b2['s'])
+                        if not is_this:
+                            continue
+                        rp = op_place(pt['args'][0])
+                        for q in porg.get(rp['l'], ()) if rp else ():
+                            if q[0][0] == 'call' and q[0][2] == P + 'take_attribute' and len(q) == 1:
+                                kk = op_const(par.blocks[q[0][1]]['t']['args'][2])
+                                bound = kk.get('v') if kk else None
+            r.check(k is not None and bound is not None and k.get('v') < bound, '%s: arguments[%s] with %s argument(s) guaranteed' % (g.path.replace(P, ''), (k or {}).get('v'), bound),
+                    'attr.arguments[%s] is indexed but take_attribute guarantees only %s argument(s) here (or the attribute does not come from take_attribute): '
+                    'the compiler panics on a short attribute' % ((k or {}).get('v', '?'), bound), g.loc(t.get('sp')))
+    if n < 2:
+        raise Broken('C03', 'floor', 'constant indexes into attr.arguments: %d' % n)
